@@ -14,6 +14,7 @@ def monitor(s, t):
         return None
     now = 0
     first, state, nstarts = {}, {}, {}
+    adm_times = []
     last_touch = 0           # last instant at which a poll may have called try_acquire (limiter created at 0)
     burst = None             # after two idle periods: {"t": instant, "k": fresh arrivals so far}
     for (e, o) in d:
@@ -33,20 +34,17 @@ def monitor(s, t):
                 continue
             if st == 'new':
                 first[i] = now
-                if now - last_touch >= 2 * P:
-                    burst = {"t": now, "k": 0}
-                if burst is not None and burst["t"] == now:
-                    burst["k"] += 1
-                    if burst["k"] <= limit and not started:
-                        return ("after two idle periods (limiter untouched since %d) fresh caller %d at %d, number %d of the burst (limit %d), was not admitted at once"
-                                % (last_touch, i, now, burst["k"], limit))
-                else:
-                    burst = None
-            elif st == 'wait':
-                burst = None
+                # spare capacity for certain: nothing was admitted during the last two periods before this
+                # instant, and fewer than `limit` calls have been admitted at this very instant
+                recent = [x for x in adm_times if now - 2 * P < x < now]
+                at_now = sum(1 for x in adm_times if x == now)
+                if not recent and at_now < limit and not started:
+                    return ("fresh caller %d at %d was not admitted at once although nothing was admitted in the two periods before and only %d of %d permits were taken at this instant"
+                            % (i, now, at_now, limit))
             if st in ('new', 'wait'):
                 last_touch_new = now
             if started:
+                adm_times.append(now)
                 nstarts[i] = nstarts.get(i, 0) + 1
                 if nstarts[i] > 1:
                     return "caller %d reached the inner service %d times" % (i, nstarts[i])
